@@ -173,6 +173,10 @@ def scanBraceDigits : Nat → Bytes → Bytes → Bytes × Bool × Nat
 
 def hexValue (ds : Bytes) : Nat := ds.foldl (fun v d => v * 16 + hexVal d) 0
 
+/-- `keepEscaped`: the escape stays as written (LF, CR, `"`, `\`, a digit, a surrogate half) -/
+def keepEscaped (v : Nat) : Bool :=
+  v == 10 || v == 13 || v == 34 || v == 92 || (48 ≤ v && v ≤ 57) || (0xD800 ≤ v && v ≤ 0xDFFF)
+
 /-- Body of `readString` after the opening delimiter.
     `b` is the input after the opening quote. Returns the token value and the number of bytes consumed
     *before* the closing position (the closing delimiter / NUL / end of input is not counted).
@@ -195,7 +199,8 @@ def scanString (delim : Nat) : Nat → Bytes → Bytes → Nat → Bytes × Nat
             if isHexDigit h1 then
               let h2 := r1.tail.headD 0
               if isHexDigit h2 then
-                scanString delim fuel (r1.drop 2) (acc ++ [toByte (hexVal h1 * 16 + hexVal h2)]) (n + 4)
+                let v := hexVal h1 * 16 + hexVal h2
+                scanString delim fuel (r1.drop 2) (acc ++ (if keepEscaped v then [92, 120, h1, h2] else encodeUTF8 v)) (n + 4)
               else scanString delim fuel (r1.drop 1) (acc ++ [92, 120]) (n + 3)   -- first digit is dropped
             else scanString delim fuel r1 (acc ++ [92, 120]) (n + 2)
           else if e == 117 then                       -- \u
@@ -208,6 +213,7 @@ def scanString (delim : Nat) : Nat → Bytes → Bytes → Nat → Bytes × Nat
               else
                 let v := hexValue ds
                 if v > 0x10FFFF then scanString delim fuel r2 (acc ++ [92, 117, 123] ++ ds ++ [125]) n2
+                else if keepEscaped v then scanString delim fuel r2 (acc ++ [92, 117, 123] ++ ds ++ [125]) n2
                 else scanString delim fuel r2 (acc ++ encodeUTF8 v) n2
             else
               let h1 := r1.headD 0
@@ -218,8 +224,9 @@ def scanString (delim : Nat) : Nat → Bytes → Bytes → Nat → Bytes × Nat
                   if isHexDigit h3 then
                     let h4 := (r1.drop 3).headD 0
                     if isHexDigit h4 then
+                      let v := hexVal h1 * 4096 + hexVal h2 * 256 + hexVal h3 * 16 + hexVal h4
                       scanString delim fuel (r1.drop 4)
-                        (acc ++ encodeUTF8 (hexVal h1 * 4096 + hexVal h2 * 256 + hexVal h3 * 16 + hexVal h4)) (n + 6)
+                        (acc ++ (if keepEscaped v then [92, 117, h1, h2, h3, h4] else encodeUTF8 v)) (n + 6)
                     else scanString delim fuel (r1.drop 3) (acc ++ [92, 117]) (n + 5)
                   else scanString delim fuel (r1.drop 2) (acc ++ [92, 117]) (n + 4)
                 else scanString delim fuel (r1.drop 1) (acc ++ [92, 117]) (n + 3)
@@ -228,7 +235,7 @@ def scanString (delim : Nat) : Nat → Bytes → Bytes → Nat → Bytes × Nat
             -- any other escaped character is kept with its backslash
             scanString delim fuel r1 (acc ++ [92, e]) (n + 2)
       else if c == delim then (acc, n)
-      else scanString delim fuel r (acc ++ [c]) (n + 1)
+      else scanString delim fuel r (acc ++ (if c == 34 then [92, c] else [c])) (n + 1)   -- a `"` inside '…' is escaped
 
 /-- `readRawString` after the opening backtick -/
 def scanRaw : Bytes → Bytes → Nat → Bytes × Nat
@@ -237,7 +244,10 @@ def scanRaw : Bytes → Bytes → Nat → Bytes × Nat
     if c == 0 then (acc, n)
     else if c == 92 then
       match r with
-      | c2 :: r2 => if c2 == 96 then scanRaw r2 (acc ++ [96]) (n + 2) else scanRaw (c2 :: r2) (acc ++ [c]) (n + 1)
+      | c2 :: r2 =>
+        if c2 == 96 then scanRaw r2 (acc ++ [96]) (n + 2)
+        else if c2 != 0 then scanRaw r2 (acc ++ [92, c2]) (n + 2)      -- every other escape pair is kept as written
+        else scanRaw (c2 :: r2) (acc ++ [c]) (n + 1)
       | [] => (acc ++ [c], n + 1)
     else if c == 96 then (acc, n)
     else scanRaw r (acc ++ [c]) (n + 1)
@@ -279,11 +289,12 @@ def baseNextToken (nl : Bool) (cs : List Bytes) (s : LS) : Token × LS :=
   else if c == 34 || c == 39 then
     let (v, k) := scanString c s.rest.tail.length s.rest.tail [] 0
     let e := readChars (1 + k) s
-    (mkTok .string v s e nl cs, readChar e)
+    -- the closing delimiter was not found (end of input, or a NUL byte): ILLEGAL
+    (mkTok (if e.cur == c then .string else .illegal) v s e nl cs, readChar e)
   else if c == 96 then
     let (v, k) := scanRaw s.rest.tail [] 0
     let e := readChars (1 + k) s
-    (mkTok .rawString v s e nl cs, readChar e)
+    (mkTok (if e.cur == 96 then .rawString else .illegal) v s e nl cs, readChar e)
   else if c == 0 then
     if s.rest.isEmpty then (mkTok .eof [] s s nl cs, s)      -- ReadChar at the end is a no-op
     else one .illegal
